@@ -23,12 +23,12 @@ fn hostile(g: &mut Rng, id: &str) -> (Vec<u8>, String) {
             // a long uninterrupted run of small requests on one connection: thousands of requests
             // the library refuses itself (unsupported version: the connection stays usable), or
             // thousands of ordinary ones
-            let n = *g.pick(&[3000usize, 8000, 20_000]);
+            let n = *g.pick(&[3000usize, 5000, 8000]);
             if g.chance(2, 3) {
                 let v = *g.pick(&["HTTP/2.0", "HTTP/3.0", "HTTP/1.2"]);
                 (format!("GET /v HTTP/1.1\r\n{}\r\n\r\n{}", idl, format!("GET / {}\r\n\r\n", v).repeat(n)).into_bytes(), "refused_version_flood".into())
             } else {
-                (format!("GET /v HTTP/1.1\r\n{}\r\n\r\n{}", idl, "GET /f HTTP/1.1\r\n\r\n".repeat(n / 10)).into_bytes(), "request_flood".into())
+                (format!("GET /v HTTP/1.1\r\n{}\r\n\r\n{}", idl, "GET /f HTTP/1.1\r\n\r\n".repeat(n / 4)).into_bytes(), "request_flood".into())
             }
         }
         8 => {
@@ -110,7 +110,7 @@ impl Campaign for C14c {
         "C14"
     }
     fn rule(&self) -> &'static str {
-        "seeded scenarios: hostile requests (Content-Length from 256 MiB to usize::MAX with only 0..3000 body bytes sent, chunk sizes up to and beyond 16 hex digits, 1000..8000 header fields, header lines and request lines of 0.1..2 MiB, NUL/control/non-ASCII bytes, missing or bare-LF line ends, malformed chunk-size lines, uninterrupted runs of 3000..20000 requests with a refused version or 300..2000 ordinary ones on one connection, with the 2 MiB thread stacks of std), optionally truncated at a random point, optionally after a good request, followed by the client closing or resetting; handlers read none / some / all of the body and then respond or drop, on the receiving thread or a handler thread. A counting global allocator records the largest single allocation request and the live-bytes peak of each run and refuses requests above 1 GiB (injected allocation failure => abort, seen by the orchestrator as a dead worker); a process-wide panic hook records the location of every panic. Non-trivial = the hostile request was delivered to the application or rejected after more than 4096 bytes; distinct = interleaving fingerprint"
+        "seeded scenarios: hostile requests (Content-Length from 256 MiB to usize::MAX with only 0..3000 body bytes sent, chunk sizes up to and beyond 16 hex digits, 1000..8000 header fields, header lines and request lines of 0.1..2 MiB, NUL/control/non-ASCII bytes, missing or bare-LF line ends, malformed chunk-size lines, uninterrupted runs of 3000..8000 requests with a refused version or 750..2000 ordinary ones (answered one after the other) on one connection, with the 2 MiB thread stacks of std), optionally truncated at a random point, optionally after a good request, followed by the client closing or resetting; handlers read none / some / all of the body and then respond or drop, on the receiving thread or a handler thread. A counting global allocator records the largest single allocation request and the live-bytes peak of each run and refuses requests above 1 GiB (injected allocation failure => abort, seen by the orchestrator as a dead worker); a process-wide panic hook records the location of every panic. Non-trivial = the hostile request was delivered to the application or rejected after more than 4096 bytes; distinct = interleaving fingerprint"
     }
     fn runs(&self, tier: Tier) -> u64 {
         match tier {
@@ -168,6 +168,12 @@ impl Campaign for C14c {
         sc.conns.push(ConnScript { open_at: SEC, steps: vec![ClientStep::Send(B(Req::get("c1r0").bytes())), ClientStep::AwaitFinals(1)], ..Default::default() });
         sc.programs.insert("c1r0".into(), Program::respond(200, b"fresh".to_vec()));
         sc.receivers = loop_receivers(g.usize(1, 2), if g.chance(1, 2) { Dispatch::Spawn } else { Dispatch::Inline });
+        if class == "request_flood" {
+            // answered one after the other on the receiving thread: thousands of handler threads
+            // all waiting for their turn to write would make the run quadratic in any
+            // implementation that wakes all waiters, which is slow but not wrong
+            sc.receivers = loop_receivers(1, Dispatch::Inline);
+        }
         let class = if index % 20 == 19 { "nothing_sent".to_string() } else { class };
         sc.note = format!("C14 index {} class={} good_first={}", index, class, good_first);
         sc
